@@ -52,6 +52,7 @@ const (
 	endHaltOther               // halt, output of another length (yield stays)
 	endTrap
 	endLoop // burn gas until it runs out
+	endFault // a load or store that faults in the MIDDLE of a basic block (address below 2^16: panic; unmapped page above: page fault), more instructions and a trap behind it
 )
 
 // scenario is everything a run needs; build() recreates fresh inputs from it
@@ -239,7 +240,9 @@ func genScenario(t *sim.Tape, r *sim.Run, sweep bool) *scenario {
 		case 0: // item count around 2^32/10: B_I*items does not fit 32 bits
 			recItems = (1<<32)/10 - 3 + uint64(t.Choose(8, "hi"))
 		case 1: // item count near 2^32
-			recItems = 1<<32 - 1 - uint64(t.Choose(40, "hi2"))
+			// (room for the items a run can add: a recorded count that wraps around 2^32 is not a state the
+			// property speaks about - the count itself is a 32-bit quantity)
+			recItems = 1<<32 - 1 - 100 - uint64(t.Choose(40, "hi2"))
 		case 2: // octets near 2^64
 			recOctets = math.MaxUint64 - uint64(t.Choose(100000, "ho"))
 		}
@@ -283,7 +286,33 @@ func genScenario(t *sim.Tape, r *sim.Run, sweep bool) *scenario {
 		}
 		return p
 	}
+	// filler: ordinary memory and register instructions between the host calls, so that basic blocks hold more
+	// than register loads and an `ecalli` (every executed instruction costs one unit of gas)
+	scratch := uint32(d.Reserve(8))
+	fillers := t.Prob(1, 2, "fillers")
+	filler := func() int {
+		if !fillers || !t.Prob(1, 3, "filler_here") {
+			return 0
+		}
+		n := 1 + t.Choose(3, "nfiller")
+		for i := 0; i < n; i++ {
+			switch t.Choose(4, "filler_kind") {
+			case 3:
+				a.Fallthrough() // ends the basic block: what follows is entered at a block start
+			case 0:
+				a.StoreImmU8(scratch+uint32(i), byte(0x40+i))
+			case 1:
+				a.LoadU8(12, scratch)
+			default:
+				a.MoveReg(12, 11)
+			}
+		}
+		r.Count("probe:filler_instructions_between_host_calls", int64(n))
+		return n
+	}
 	emit := func(op int, note string, regs map[int]uint64) {
+		nf := filler()
+		defer func() { sc.steps[len(sc.steps)-1].nInstr += nf }()
 		for reg := 7; reg <= 12; reg++ {
 			if v, ok := regs[reg]; ok {
 				a.LoadImm64(reg, v)
@@ -452,7 +481,7 @@ func genScenario(t *sim.Tape, r *sim.Run, sweep bool) *scenario {
 	}
 	// ---- ending -------------------------------------------------------------
 	copy(sc.out32[:], []byte("halt-output-32-bytes-long-value!"))
-	sc.end = ending(t.Pick([]int{4, 3, 2, 3, 2}, "ending"))
+	sc.end = ending(t.Pick([]int{4, 3, 2, 3, 2, 2}, "ending"))
 	switch sc.end {
 	case endHalt0:
 		a.LoadImm64(7, outBuf)
@@ -475,6 +504,27 @@ func genScenario(t *sim.Tape, r *sim.Run, sweep bool) *scenario {
 	case endLoop:
 		a.LoopForever()
 		sc.tailInstr = 1 << 30
+	case endFault:
+		before := 0
+		if t.Bool("fault_in_fresh_block") {
+			a.Fallthrough() // the faulting instruction sits in a basic block that is entered at its start
+			before++
+		}
+		for i := t.Choose(3, "fault_before"); i > 0; i-- {
+			a.StoreImmU8(scratch, byte(i))
+			before++
+		}
+		addr := []uint32{0, 0xFFFF, 0x8000, 0x10000, 0x1F000, 0x7FFF0000}[t.Choose(6, "fault_addr")]
+		if t.Bool("fault_is_load") {
+			a.LoadU8(12, addr)
+		} else {
+			a.StoreImmU8(addr, 1)
+		}
+		for i := t.Choose(4, "fault_after"); i > 0; i-- { // never executed; same basic block
+			a.LoadImm64(12, uint64(i))
+		}
+		a.Trap()
+		sc.tailInstr = before + 1
 	}
 	sc.blob = pvmasm.Standard(a.Blob(), d.Bytes, 4096)
 	metaCode := encodeMetaCode(sc.blob)
